@@ -609,7 +609,7 @@ bool Parser::parse_patch_header(Patch& patch, PatchHeaderInfo& header_info, int 
 
         if (patch.format == Format::Unknown || patch.format == Format::Normal) {
             // If we parsed a valid normal range, the next line _should_ be the diff markers.
-            if (last_line_looks_like == Format::Normal && (starts_with(line, "> ") || starts_with(line, "< "))) {
+            if (last_line_looks_like == Format::Normal && line.size() >= 2 && (line[0] == '>' || line[0] == '<') && is_whitespace(line[1])) {
                 patch.format = Format::Normal;
                 patch.new_file_path.clear();
                 patch.old_file_path.clear();
